@@ -72,7 +72,12 @@ def gen(tier, seed):
             else:
                 steps.append(['print 0'])
         kind = 'poison' if i % 2 == 0 else 'share'
+        if i % 5 == 4:
+            kind = 'oom'        # a failed cfg_init / section creation must leave the caller's declarations alone
         spec = {'kind': kind, 'decls': [d.to_json() for d in decls], 'comments': comments, 'steps': steps}
+        if kind == 'oom':
+            spec['k'] = rng.randint(1, 80)
+            spec['text'] = '\n'.join(multi_text(rng, decls)) + '\n'
         if kind == 'share':
             # callbacks / validators / print funcs registered on context 0 only
             extra = []
@@ -89,6 +94,14 @@ def script(spec):
     decls = [D.from_json(j) for j in spec['decls']]
     fl = F_COMMENTS if spec['comments'] else 0
     L = []
+    if spec['kind'] == 'oom':
+        sid = schema.emit(decls, L, [0])
+        # context 1: the k-th allocation of cfg_init fails; context 2: the k-th allocation while sections are created fails
+        L += ['oomat %d' % spec['k'], 'init 1 %d %d' % (sid, fl), 'oomat 0',
+              'init 2 %d %d' % (sid, fl), 'oomat %d' % spec['k'], 'parse_buf 2 %s' % hx(spec['text']), 'oomat 0',
+              'note twin', 'init 0 %d %d' % (sid, fl), 'parse_buf 0 %s' % hx(spec['text']), 'dump 0',
+              'init 3 %d %d' % (sid, fl), 'parse_buf 3 %s' % hx(spec['text']), 'dump 3']
+        return '\n'.join(L)
     if spec['kind'] == 'poison':
         sidA = schema.emit(decls, L, [0])
         L.append('init 0 %d %d' % (sidA, fl))
@@ -183,10 +196,25 @@ def judge(spec, events, death):
     v.nontrivial = interesting(spec['decls'])
     if death is not None:
         kind = death['kind']
-        v.bad('%s:%s@%s' % ('poisoned-schema-read' if spec['kind'] == 'poison' and 'use-after-free' in kind else 'crash', kind, death['where']),
+        if spec['kind'] == 'oom' and kind == 'abort-in-init-defaults':
+            v.skipped = True        # the known C18 finding (abort() when a default cannot be parsed for lack of memory) is not C16's subject
+            return v
+        v.bad('%s:%s@%s' % ('poisoned-schema-read' if spec['kind'] == 'poison' and 'use-after-free' in kind else
+                            'declarations-freed' if spec['kind'] == 'oom' else 'crash', kind, death['where']),
               '%s case: %s' % (spec['kind'], death['text'][-700:]))
         return v
     G_ = groups_of(events)
+    if spec['kind'] == 'oom':
+        for g in G_:
+            if g[0] == 'twin':
+                r = [e for e in g[1:] if e.get('ev') == 'r' and e.get('op') in ('init', 'parse_buf')]
+                d = [e for e in g[1:] if e.get('ev') == 'dump']
+                v.notes['oom_cases'] = 1
+                if any(e['rc'] != 0 for e in r if e['op'] == 'init') or len(d) < 2:
+                    v.bad('declarations-damaged:init-fails', 'after a cfg_init / section creation that failed for lack of memory, the same declarations no longer initialise a context')
+                elif json.dumps(d[0]['tree'], sort_keys=True) != json.dumps(d[1]['tree'], sort_keys=True):
+                    v.bad('declarations-damaged:contexts-differ', 'two contexts built from the declarations after a failed cfg_init differ')
+        return v
     if spec['kind'] == 'poison':
         rets = {0: [], 1: []}
         for g in G_:
